@@ -46,4 +46,26 @@ theorem TxState.withCid {s : St} (h : TxState s) (c : Nat) (hc : c < 1000000000)
 theorem TxState.withSP {s : St} (h : TxState s) (sp : String) : TxState (s.withSP sp) :=
   ⟨h.solo, h.xid, h.cid, h.snap, h.noEpq, h.names⟩
 
+/-- the state with an empty AFTER-trigger queue -/
+def St.clearQ (s : St) : St := { s with afterQ := [] }
+
+@[simp] theorem clearQ_w (s : St) : s.clearQ.w = s.w := rfl
+@[simp] theorem clearQ_xid (s : St) : s.clearQ.xid = s.xid := rfl
+@[simp] theorem clearQ_cid (s : St) : s.clearQ.cid = s.cid := rfl
+
+/-- `runStmt` around a statement that queues no AFTER trigger and only writes one table -/
+theorem exec_runStmt_noAfter (n : Nat) (env : Env) (stmt : Stmt) (s : St) (r : DmlResult) (t : Table)
+    (h : (execStmt (n + 1) env stmt).exec s.clearQ = (.ok r, s.clearQ.withTable t)) :
+    (runStmt (n + 2) env stmt).exec s = (.ok r, s.withTable t) := by
+  rw [runStmt]
+  simp only [exec_bind, exec_get, exec_modify, exec_pure]
+  have h' : (execStmt (n + 1) env stmt).exec { s with afterQ := [] } = (.ok r, s.clearQ.withTable t) := h
+  rw [h']
+  simp only
+  rw [drainAfter]
+  simp [exec_bind, St.withTable, St.clearQ]
+
+theorem TxState.clearQ {s : St} (h : TxState s) : TxState s.clearQ :=
+  ⟨h.solo, h.xid, h.cid, h.snap, h.noEpq, h.names⟩
+
 end Ledger.Sql
